@@ -528,6 +528,19 @@ def search_monotone(ctx, o, S):
                 good_sign = isinstance(v.op, ast.Add) if d == 1 else isinstance(v.op, ast.Sub)
                 if not good_sign:
                     o.refute(f, r, r, f"search returns `{src(v)[:80]}`: the day fraction is applied in the wrong direction")
+                # the fraction `1 - (CAP - RESV) / CAP'`: a denominator that is another capacity than the one the free amount was
+                # taken from (asked for no task / another day) can make the share negative: the result moves before midnight(day)
+                fm = match("timedelta(hours=24 * $p)", v.right) or match("timedelta(days=$p)", v.right) or match("timedelta(hours=$p * 24)", v.right)
+                pm = match("1 - $a / $b", fm['p']) if fm else None
+                if pm:
+                    fr, cb = sched.parse_free(pm['a'], S['balance']), sched.parse_cap(pm['b'])
+                    if fr and cb:
+                        ca = fr['cap']
+                        same_task = (ca['t'] is None and cb['t'] is None) or (ca['t'] is not None and cb['t'] is not None and same(ca['t'], cb['t']))
+                        if not (same(ca['r'], cb['r']) and same(ca['d'], cb['d']) and same_task):
+                            o.refute(f, r, pm['b'], f"the booked share of the day is `1 - ({src(ca['node'])[:50]} - reserved) / {src(cb['node'])[:50]}`: free "
+                                                    f"amount and denominator are different capacities, so the share can be negative and the "
+                                                    f"result lies {'before' if d == 1 else 'after'} the day the search stopped at")
         if m is None:
             o.undecided(f, r, r, "search result is not midnight(day) +/- fraction")
             return
